@@ -22,7 +22,14 @@ TRules == /\ IsEvent("Rules")
           /\ SplitRules(ev.arg) = ev.split
           /\ ev.got = ev.want
           /\ UNCHANGED uvars
-TraceSpec == TInit /\ [][TReset \/ TOp \/ TRules]_<<uvars, l>>
+\* FileSink path with a time pattern: exactly one file appears, named by the expansion (the harness renders the format
+\* the specification extracts with Qt's own QDateTime, just before and just after the sink was built)
+TTimePath == /\ IsEvent("TimePath")
+             /\ (HasTimePattern(ev.arg) => TimeFormatOf(ev.arg) = ev.fmt)
+             /\ Len(ev.names) = 1
+             /\ \E k \in 1..Len(ev.rendered) : ev.names[1] = ExpandTime(ev.arg, ev.rendered[k])
+             /\ UNCHANGED uvars
+TraceSpec == TInit /\ [][TReset \/ TOp \/ TRules \/ TTimePath]_<<uvars, l>>
 TraceAccepted ==
     LET d == TLCGet("stats").diameter
     IN  /\ PrintT(<<"TRACE_MATCHED", d - 1, Len(TraceLog)>>)
